@@ -104,6 +104,35 @@ def run(tier):
             name = schema[o["kind"]][slot - 1][0] if slot else None
             check.violation({"class": cls, "kind": o["kind"], "slot": name},
                             {"instance": o, "observed_output": r["out"], "slot": name})
+    # Walk.tla's derived prescriptions: the same printer object used again (the second text may begin with one separating space);
+    # one node object in every child slot is printed once per slot
+    base = [o for o in inst if all(x in (0, 1, maxlen) for x in o["slots"])]
+    t2 = [{"op": "synth", "kind": o["kind"], "slots": o["slots"], "run": "print", "again": True} for o in base] + \
+         [{"op": "synth", "kind": o["kind"], "slots": o["slots"], "run": "print", "shared": True} for o in base]
+    for o, t, r in zip(base + base, t2, wp.run(t2)):
+        check.count()
+        if r.get("panic") or r.get("hang") or r.get("crash"):
+            check.violation({"class": "crash", "kind": o["kind"], "site": r.get("site")}, {"task": t, "observed": r})
+            continue
+        if t.get("again"):
+            if compare(o, r["out"], lextable) is None:
+                # what the output stage (PrinterOut.tla) may put in front of the second text is not the walk's business
+                o2 = r["out2"]
+                for pre in ("<?php ", "?>", " "):
+                    if o2.startswith(pre) and not r["out"].startswith(pre):
+                        o2 = o2[len(pre):]
+                        break
+                bad = compare(o, o2, lextable)
+                if bad:
+                    check.violation({"class": "printer-object-not-reusable", "kind": o["kind"], "slot": bad[0]},
+                                    {"instance": o, "first": r["out"], "second": r["out2"]})
+        else:
+            os_ = dict(o, expect=["N0.0" if e.startswith("N") else e for e in o["expect"]])
+            bad = compare(os_, r["out"], lextable)
+            if bad and compare(o, wp.run([{"op": "synth", "kind": o["kind"], "slots": o["slots"], "run": "print"}])[0]["out"], lextable) is None:
+                check.violation({"class": "shared-child-not-printed-per-slot", "kind": o["kind"], "slot": bad[0]},
+                                {"instance": o, "observed_output": r["out"]})
+    check.cov["again_and_shared_instances"] = len(t2)
     check.sample({"direction": "spec->impl", "instance": inst[len(inst) // 3]})
     # printing is compositional: for every ordered pair of kinds (all-present / all-absent) the text of two nodes in one list is
     # the text of the first followed by the text of the second (with PrinterOut.tla's separating space between name bytes)
